@@ -64,6 +64,7 @@ ASSUMPTIONS = [
     "the nonlinear solvers (neqs Levenberg, scipy root/lm incl. its success flag) and numpy lstsq are unmodelled; their outputs are validated per run (exit test, exact residuals)",
     "log-variables are modelled multiplicatively (level*change^shift); agreement with exp(log level + shift*log change) is a theorem over the reals, floating-point exp/log is compared with tolerance",
     "the order of the unknowns inside the evaluator's guess vector (CPython set order) is not modelled: the model uses increasing qid and the harness permutes the implementation's final guess accordingly; the *sets* of level/change unknowns are compared exactly",
+    "exogenous variables are only combined with the nonlinear algorithm: with linear=True the steady algorithm ignores them (recorded C06 finding, same root cause; corpus/C05/linear-steady-ignores-exogenous-variables.json is reported only once known_findings.json lists that site for C05)",
     "generated models possess a steady state by construction (stationary blocks are strictly diagonally dominant for every variant, unit root with drift, balanced growth); the every-date oracle is only meaningful for such models -- for a singular parameterisation the linear algorithm (least squares) completes without error on a model that has no steady state, which is outside the property's quantifier",
 ]
 
@@ -574,7 +575,9 @@ def gen_case(rng: Rng, force=None) -> dict:
         if G.swaps and rng.chance(0.6):
             x, a = rng.choice(G.swaps)
             plan["exogenized"].append(x); plan["endogenized"].append(a)
-            G.init[x] = (rng.choice([1.0, 2.0, 0.5, -1.0]), 0.0 if not flat else None)
+            # in a flat solve the exogenized quantity may carry a stale trend (assigned, or left by an earlier growth solve):
+            # the flat evaluator resets it, the model's `zeroChanges` does the same, the `steady` stream compares the result
+            G.init[x] = (rng.choice([1.0, 2.0, 0.5, -1.0]), 0.0 if not flat else rng.choice([None, 0.5, -0.25]))
         if G.fixchanges and not flat and rng.chance(0.35):
             # exogenize a unit-root variable with an assigned (level, change); its drift parameter becomes the unknown
             z, d = rng.choice(G.fixchanges)
@@ -1600,7 +1603,8 @@ def run(ctx: Ctx):
                 "multi-step sessions on one model object (override/reset of the equality tolerance, solver_settings tolerances, parameter "
                 "re-assignments, per-call linear/flat overrides in both directions on models created with either flag), each completed "
                 "solve judged against the options in force at that call; exhaustive flag-resolution table; growth-mode models with more than eight "
-                "quantities declared in random order around one simultaneous block whose members have different steady changes. "
+                "quantities declared in random order around one simultaneous block whose members have different steady changes; mode histories on "
+                "one object (exogenous variables with assigned trends, growth solve, flat re-solve with a swap plan, re-assignments). "
                 "distinct_nontrivial = distinct (linear, flat, variants, split, module list, plan?, #equations, solver) among "
                 "solved cases, plus distinct non-constant path requests")
     for path, payload in corpus_cases():
@@ -1736,6 +1740,7 @@ def replay_source(ctx: Ctx, c):
     case.setdefault("nv", 1); case.setdefault("split", None); case.setdefault("plan", None); case.setdefault("tags", ["corpus"])
     case["tvars"], case["mvars"] = names("!transition-variables"), names("!measurement-variables")
     case["logs"], case["shocks"] = names("!log-variables"), names("!transition-shocks")
+    case["xvars"] = names("!exogenous-variables")
     case["teqs"], case["meqs"], case["autos"] = [], [], []
     case["params"] = {k: (v if isinstance(v, list) else [v]) for k, v in c["params"].items()}
     case["init"] = {k: tuple(v) if isinstance(v, list) else (v, None) for k, v in c.get("init", {}).items()}
@@ -1757,5 +1762,14 @@ def replay_source(ctx: Ctx, c):
                 r, scale = oracle_residual(code, kinds, levels, changes, t)
                 ctx.evaluations += 1
                 if not (abs(r) <= TOL_ORACLE * scale):
-                    ctx.fail(c.get("site", "steady-equation-residual"), c, f"variant {vid}: `{text}` at date {t:+d}: residual {r!r}")
+                    site = c.get("site", "steady-equation-residual")
+                    if c.get("report_only_if_known"):
+                        # a finding that is recorded under another property (same root cause); it is reported here only once
+                        # known_findings.json lists the site for C05 too (then as KNOWN-FINDING), until then it is counted
+                        from .common import load_known
+                        if site not in {k.get("site") for k in load_known("C05")}:
+                            ctx.count("finding_candidate_not_listed:" + site)
+                            ctx.extra.setdefault("finding_candidates", {})[site] = f"`{text}` at date {t:+d}: residual {r!r}"
+                            break
+                    ctx.fail(site, c, f"variant {vid}: `{text}` at date {t:+d}: residual {r!r}")
                     break
